@@ -724,8 +724,27 @@ def exec_xrfm(p, drv):
                 res['failures'].append({'signature': f'C04:xrfm-gradient-not-jacobian-of-predict:{k["kind"]}', 'detail':
                                         f'row {j}: get_grads {gi[0, r_].tolist()} finite differences of predict {fd.tolist()} '
                                         f'|diff| {err:.3e} tolerance {tol:.3e}'})
+    # batches that leave some leaves empty: the rows of one leaf only, and single rows - the Jacobian of predict at a row
+    # does not depend on which other rows are in the batch (the full-batch values are the ones checked above)
+    sub_checked = 0
+    subs = [[j for j, _ in rows] for _, _, rows in by_leaf.values()] + [[j] for _, _, rows in by_leaf.values() for j, _ in rows[:2]]
+    for js in subs:
+        try:
+            Gs = model.get_grads(Zq[js]).double()
+        except Exception as e:
+            res['failures'].append({'signature': f'C04:raises:{type(e).__name__}', 'detail': f'get_grads on a batch of {len(js)} row(s) of one leaf: {str(e)[:300]}'})
+            break
+        sub_checked += 1
+        ref = G[js]
+        tol = 1e-4 * float(ref.abs().max()) + 1e-6
+        err = float((Gs - ref).abs().max()) if Gs.shape == ref.shape else float('inf')
+        if err > tol:
+            res['failures'].append({'signature': f'C04:xrfm-gradient-not-jacobian-of-predict:sub-batch:{k["kind"]}', 'detail':
+                                    f'get_grads of rows {js[:6]} alone (all routed to one of {n_leaves} leaves) differs from their values in the '
+                                    f'full batch (checked against finite differences of predict) by {err:.3e}, tolerance {tol:.3e}'})
+            break
     res['nontrivial'] = [p['seed'], k['kind'], n_leaves] if bool((G.abs() > 0).any()) else None
-    res['dist'] = {'xrfm_kind': k['kind'], 'xrfm_leaves': n_leaves if n_leaves < 5 else '5+', 'xrfm_diag': p['diag'],
+    res['dist'] = {'xrfm_kind': k['kind'], 'xrfm_sub_batches': sub_checked if sub_checked < 8 else '8+', 'xrfm_leaves': n_leaves if n_leaves < 5 else '5+', 'xrfm_diag': p['diag'],
                    'xrfm_fd_rows_checked': checked_fd}
     res['sample'] = {'kernel': k, 'n': n, 'd': d, 'leaves': n_leaves, 'fd_rows_checked': checked_fd,
                      'rows_skipped_near_threshold': skipped_thr, 'corr_err_over_allowance': worst_corr,
